@@ -41,6 +41,8 @@ class CallMixin(ExprMixin):
         cs = None
         if self.C is not None:
             cs = self.C.callsites.get(full) or self.C.callsites.get(text)
+        if cs is not None and cs.get('pure') is not None:
+            return cs['pure'](self, n)
         if cs is not None and cs.get('pre') is not None and not self.spec_mode:
             cs['pre'](self, n)
         if cs is not None and cs.get('model') is not None:
@@ -664,6 +666,11 @@ class CallMixin(ExprMixin):
                 return self.spec.builtins['Task#await'](self, v)
             if d[0] == 'future':
                 return self.spec.builtins['Future#await'](self, v)
+        if v.ty.kind == 'obj':
+            key = self.spec.methods.get((v.ty.cls, '__await__'))
+            if isinstance(key, str):
+                C = self.spec.functions[key]
+                return self.apply_contract(C, {next(iter(C.params)): v})
         raise Unsupported('await of %r' % (v,))
 
     # ------------------------------------------------------------------ suspension points (A1, A8)
@@ -787,12 +794,17 @@ class CallMixin(ExprMixin):
     def e_DictComp(self, n):
         if len(n.generators) != 1:
             raise Unsupported('nested comprehension')
-        src, j, elts, cond = self.comp_parts([n.key, n.value], n.generators[0])
+        gen = n.generators[0]
+        # {k: f(v) for k, v in d.items() [if ...]}: the keys are a subsequence of the keys of a Python dict, hence pairwise distinct (A10)
+        keys_of_a_dict = (isinstance(gen.iter, ast.Call) and isinstance(gen.iter.func, ast.Attribute) and gen.iter.func.attr == 'items' and not gen.iter.args
+                          and isinstance(gen.target, ast.Tuple) and len(gen.target.elts) == 2 and isinstance(gen.target.elts[0], ast.Name)
+                          and isinstance(n.key, ast.Name) and n.key.id == gen.target.elts[0].id)
+        src, j, elts, cond = self.comp_parts([n.key, n.value], gen)
         kv = V(Ty('tuple', (elts[0].ty, elts[1].ty)), (elts[0], elts[1]))
         pairs = self.filtered(src, j, kv, cond)
-        return self.dict_from_pairs(pairs, elts[0].ty, elts[1].ty)
+        return self.dict_from_pairs(pairs, elts[0].ty, elts[1].ty, distinct_known=keys_of_a_dict)
 
-    def dict_from_pairs(self, pairs: V, kt: Ty, vt: Ty) -> V:
+    def dict_from_pairs(self, pairs: V, kt: Ty, vt: Ty, distinct_known=False) -> V:
         """dict built from a list of (k, v) with pairwise distinct keys (checked): order = list order."""
         t = Ty('dict', (kt, vt))
         s = t.sort()
@@ -803,7 +815,9 @@ class CallMixin(ExprMixin):
         keyat = lambda ix: ts.accessor(0, 0)(z3.Select(pel, ix))
         valat = lambda ix: ts.accessor(0, 1)(z3.Select(pel, ix))
         distinct = z3.ForAll([i, i2], z3.Implies(z3.And(0 <= i, i < i2, i2 < n), keyat(i) != keyat(i2)))
-        if not self.spec_mode:
+        if distinct_known:
+            self.assume(distinct)
+        elif not self.spec_mode:
             self.oblige('safety', 'dictcomp_keys_distinct', distinct, ('safety',))
         out = fresh(t, 'dcomp')
         keys, cnt, has, val, idx = self.dict_parts(out)
